@@ -404,24 +404,75 @@ func (vc *FnVC) hget(st *state, key string) string {
 	if !vc.declared[base] {
 		vc.declared[base] = true
 		vc.emit(fmt.Sprintf("(declare-const %s %s)", base, vc.heapSort(key)))
-		vc.heapWF(base, vc.heapSort(key))
+		a := ""
+		if key != "A" && strings.HasPrefix(vc.heapSort(key), "(Array Ref ") {
+			a = fmt.Sprintf("h_A_e%d", st.epoch)
+			if !vc.declared[a] {
+				vc.declared[a] = true
+				vc.emit(fmt.Sprintf("(declare-const %s (Array Ref Bool))", a))
+			}
+		}
+		vc.heapWF(base, vc.heapSort(key), a)
 	}
 	return base
 }
 
-// heapWF: type invariants of the values stored in an unconstrained heap array (slice headers are well-formed).
-func (vc *FnVC) heapWF(name, sort string) {
+// heapWF: type invariants of the values stored in an unconstrained heap array: slice headers are well-formed,
+// and every pointer stored in the heap is nil or allocated (a is the allocation array the heap belongs to; ""
+// when none is at hand).  In a real Go state no location holds a dangling pointer; without this an arbitrary
+// initial heap could alias a slice's backing array with an object the function allocates later.
+func (vc *FnVC) heapWF(name, sort, a string) {
 	switch sort {
-	case "(Array Ref Slice)":
-		vc.emit(fmt.Sprintf("(assert (forall ((wr Ref)) (! (and (>= (slen (select %s wr)) 0) (>= (soff (select %s wr)) 0) (>= (scap (select %s wr)) (slen (select %s wr)))) :pattern ((select %s wr)))))", name, name, name, name, name))
 	case "Slice":
 		vc.emit(fmt.Sprintf("(assert (and (>= (slen %s) 0) (>= (soff %s) 0) (>= (scap %s) (slen %s))))", name, name, name, name))
+		return
 	}
+	if !strings.HasPrefix(sort, "(Array Ref ") {
+		return
+	}
+	inner := sort[len("(Array Ref ") : len(sort)-1]
+	sel := "(select " + name + " wr)"
+	binders := "(wr Ref)"
+	if strings.HasPrefix(inner, "(Array ") {
+		// (Array K V): slice elements and map values
+		rest := inner[len("(Array "):len(inner)-1]
+		var k, v string
+		if strings.HasPrefix(rest, "(") {
+			return
+		}
+		i := strings.Index(rest, " ")
+		if i < 0 {
+			return
+		}
+		k, v = rest[:i], rest[i+1:]
+		if k == "Ref" {
+			return
+		}
+		inner = v
+		sel = "(select (select " + name + " wr) wk)"
+		binders = "(wr Ref) (wk " + k + ")"
+	}
+	var facts []string
+	switch inner {
+	case "Slice":
+		facts = append(facts, fmt.Sprintf("(>= (slen %s) 0) (>= (soff %s) 0) (>= (scap %s) (slen %s))", sel, sel, sel, sel))
+		if a != "" {
+			facts = append(facts, fmt.Sprintf("(or (= (sbase %s) nil) (select %s (sbase %s)))", sel, a, sel))
+		}
+	case "Ref":
+		if a != "" {
+			facts = append(facts, fmt.Sprintf("(or (= %s nil) (select %s %s))", sel, a, sel))
+		}
+	}
+	if len(facts) == 0 {
+		return
+	}
+	vc.emit(fmt.Sprintf("(assert (forall (%s) (! (and %s) :pattern (%s))))", binders, strings.Join(facts, " "), sel))
 }
 
-func (vc *FnVC) freshHeap(prefix, sort string) string {
+func (vc *FnVC) freshHeap(prefix, sort, a string) string {
 	n := vc.fresh(prefix, sort)
-	vc.heapWF(n, sort)
+	vc.heapWF(n, sort, a)
 	return n
 }
 
@@ -456,7 +507,7 @@ func (vc *FnVC) havocKey(st *state, k string) {
 		vc.allocGrows(oldA, st.h[k])
 		return
 	}
-	st.h[k] = vc.freshHeap("h_"+k, vc.heapSort(k))
+	st.h[k] = vc.freshHeap("h_"+k, vc.heapSort(k), vc.hget(st, "A"))
 }
 
 // ---------- heap keys ----------
@@ -1544,6 +1595,7 @@ func (f *frame) enterLoop(li *loopInfo, b *ssa.BasicBlock, preds []*ssa.BasicBlo
 	for k, v := range names(entryVals) {
 		envE.vars[k] = v
 	}
+	f.bindEnclosing(li, envE)
 	f.bindRangeVisited(li, envE, true)
 	for i, cl := range clauses {
 		label := cl.Label
@@ -1623,7 +1675,7 @@ func (f *frame) enterLoop(li *loopInfo, b *ssa.BasicBlock, preds []*ssa.BasicBlo
 				}
 				h0 := vc.hget(ref, k)
 				a0 := vc.hget(ref, "A")
-				nh := vc.freshHeap("h_"+k, so)
+				nh := vc.freshHeap("h_"+k, so, vc.hget(cur, "A"))
 				var conds []string
 				conds = append(conds, "(select "+a0+" fr)")
 				for _, r := range single[k] {
@@ -1657,6 +1709,7 @@ func (f *frame) enterLoop(li *loopInfo, b *ssa.BasicBlock, preds []*ssa.BasicBlo
 	for k, v := range names(li.phiSyms) {
 		envH.vars[k] = v
 	}
+	f.bindEnclosing(li, envH)
 	f.bindRangeVisited(li, envH, false)
 	for _, cl := range clauses {
 		vc.assume(reach, envH.boolExpr(cl.E))
@@ -1669,6 +1722,25 @@ func (f *frame) enterLoop(li *loopInfo, b *ssa.BasicBlock, preds []*ssa.BasicBlo
 		}
 	}
 	return cur
+}
+
+// bindEnclosing makes the loop-carried variables of the loops that enclose li visible: the range index of the
+// enclosing loop with ordinal k is idx<k>; named variables keep their source names unless shadowed.
+func (f *frame) bindEnclosing(li *loopInfo, e *env) {
+	for _, outer := range f.loops {
+		if outer == li || !outer.blocks[li.header] || outer.phiSyms == nil {
+			continue
+		}
+		for phi, s := range outer.phiSyms {
+			if phi.Comment == "rangeindex" {
+				e.vars[fmt.Sprintf("idx%d", outer.ordinal)] = s
+			} else if phi.Comment != "" {
+				if _, exists := e.vars[phi.Comment]; !exists {
+					e.vars[phi.Comment] = s
+				}
+			}
+		}
+	}
 }
 
 // bindRangeVisited binds the ghost "visited" set of a map-range loop into a spec environment.
@@ -1737,6 +1809,7 @@ func (f *frame) closeLoops(visited map[*ssa.BasicBlock]bool) {
 		cond := vc.define(fmt.Sprintf("latch%d", li.ordinal), "Bool", or(conds...))
 		env := f.env(st, f.oldSt)
 		env.pointBlock, env.pointIdx = b, 0
+		f.bindEnclosing(li, env)
 		for _, in := range b.Instrs {
 			phi, ok := in.(*ssa.Phi)
 			if !ok {
